@@ -31,10 +31,18 @@ def run_harness(mode, n, seed, out, timeout=1500, fixtures=None):
     if p.returncode != 0 or not os.path.exists(out):
         raise vlib.Infra("txn harness (%s) failed rc=%s:\n%s" % (mode, p.returncode, p.stdout[-3000:]))
 
-def model_check(wd):
+def model_check(wd, tier="quick"):
     r = vlib.run_tlc(os.path.join(wd, "mc"), "MC_Percolator", workers=16, timeout=1500)
     if not r.ok:
         raise vlib.Infra("MC_Percolator fails on the specification itself (%s):\n%s" % (r.invariant, r.out[-2500:]))
+    # async commit: the I-spec holds, the committer of the pinned commit (cleanup after an undetermined prewrite) must fail
+    a = vlib.run_tlc(os.path.join(wd, "mc"), "AsyncCommit", cfg="MC_AsyncCommit_quick.cfg" if tier == "quick" else "MC_AsyncCommit.cfg", workers=16, timeout=1500)
+    if not a.ok:
+        raise vlib.Infra("AsyncCommit.tla fails its own invariants (%s):\n%s" % (a.invariant, a.out[-2500:]))
+    ap = vlib.run_tlc(os.path.join(wd, "mc"), "AsyncCommit", cfg="MC_AsyncCommit_pinned.cfg", workers=8, timeout=900)
+    if ap.ok or ap.invariant != "OneOutcome":
+        raise vlib.Infra("AsyncCommit.tla with cleanup after an undetermined prewrite no longer violates OneOutcome:\n" + ap.out[-1500:])
+    r.async_commit = a.summary()
     vlib.clean_tlc_dir(os.path.join(wd, "mc"))
     return r
 
@@ -48,7 +56,7 @@ def run_txn_check(prop, families, tier, seed, replay, monitors=("TxnHistory",), 
     if replay:
         traces = [("replay", replay)]
     else:
-        mc = model_check(wd)
+        mc = model_check(wd, tier)
         build_harness()
         fixtures = None
         for mode, nq, nt in families:
@@ -101,8 +109,8 @@ def run_txn_check(prop, families, tier, seed, replay, monitors=("TxnHistory",), 
                evaluations=sum(s["events"] for s in stats.values()), distinct_nontrivial=max(2, nontrivial),
                rule="scenarios executed on the real client over mocktikv through the wire gate; distinct = distinct scenario descriptors "
                     "(shape / layout / mode / fault position / companion or seed-generated workload)",
-               per_family=stats, samples=samples, model_check=mc.summary() if mc else None,
-               checker_cmd="tlc MC_Percolator ; go build harness/txn ; txnh -mode ... ; tlc " + " ; tlc ".join(monitors))
+               per_family=stats, samples=samples, model_check=mc.summary() if mc else None, async_commit_model_check=getattr(mc, "async_commit", None) if mc else None,
+               checker_cmd="tlc MC_Percolator ; tlc AsyncCommit (holds; pinned committer must fail OneOutcome) ; go build harness/txn ; txnh -mode ... ; tlc " + " ; tlc ".join(monitors))
     cov.update(extra_cov or {})
     vlib.write_evidence(prop, tier, seed, "model_checking", cov, time.time() - t0, nviol + len(v.known_hits),
                         assumptions=(assumptions or []) + ["stores: the in-repo mock TiKV (two-phase commit, optimistic and pessimistic, virtual time) and, for the families whose name ends in 'uni', tidb's unistore (async commit and 1PC as well; wall-clock TSO, so locks only expire for GC-style forced resolution); unistore itself is trusted where it is faithful to TiKV - three places where it is not are excluded (DESIGN 10.4)",
